@@ -94,7 +94,7 @@ CLAIMED = {
    category="model_checking",
    text="FullParams root == two-level commitment layout written from the spec; compact form carries exactly the layout's extra root and keeps script + limit; compact root layout for symbolic elided root; Null root is zero. Together: compaction cannot change the root. Field lengths per shard, contents symbolic, SHA-256 compression uninterpreted.",
    design_ref="DESIGN.md §2 C19",
-   note="Header-level root (fast-merkle of current/proposed roots) and direct two-computation comparisons only in the thorough tier (heavy); Null-inside-header shards not decided. Scripts <= 3 bytes, <= 2 extension entries." + TRUST,
+   note="NOT decided: the header-level root (fast-merkle of current/proposed roots) and direct two-computation comparisons (harnesses exist unregistered: out of memory / no result in 25 min at 40 GB). Scripts <= 3 bytes, <= 2 extension entries." + TRUST,
    technique=TECH + "; SHA-256 compression as uninterpreted function"),
 }
 
